@@ -86,7 +86,7 @@ func TestC18(t *testing.T) {
 		}
 
 		t.Repeat(map[string]func(*rapid.T){
-			"store": func(t *rapid.T) { doStore(false) },
+			"store":    func(t *rapid.T) { doStore(false) },
 			"applyReg": func(t *rapid.T) { doStore(true) },
 			"load": func(t *rapid.T) {
 				k := loadKeys[rapid.IntRange(0, len(loadKeys)-1).Draw(t, "lkey")]
